@@ -39,6 +39,36 @@ impl<const N: u64> enumerated::Constraint for En<N> {
     }
 }
 
+/// an extensible ENUMERATED: STD of its N items stand in front of the extension marker
+#[derive(Debug, PartialEq, Clone)]
+struct EnX<const N: u64, const STD: u64>(u64);
+impl<const N: u64, const STD: u64> common::Constraint for EnX<N, STD> {
+    const TAG: Tag = Tag::DEFAULT_ENUMERATED;
+}
+impl<const N: u64, const STD: u64> enumerated::Constraint for EnX<N, STD> {
+    const NAME: &'static str = "EnX";
+    const VARIANT_COUNT: u64 = N;
+    const STD_VARIANT_COUNT: u64 = STD;
+    const EXTENSIBLE: bool = true;
+    fn to_choice_index(&self) -> u64 {
+        self.0
+    }
+    fn from_choice_index(index: u64) -> Option<Self> {
+        if index < N { Some(EnX(index)) } else { None }
+    }
+}
+
+/// INTEGER constraints as the generator emits them for (LO..HI), (LO..MAX) and their extensible forms
+struct Bounds<const LO: i64, const HI: i64, const HAS_HI: bool, const EXT: bool>;
+impl<const LO: i64, const HI: i64, const HAS_HI: bool, const EXT: bool> common::Constraint for Bounds<LO, HI, HAS_HI, EXT> {
+    const TAG: Tag = Tag::DEFAULT_INTEGER;
+}
+impl<const LO: i64, const HI: i64, const HAS_HI: bool, const EXT: bool, T: Number> numbers::Constraint<T> for Bounds<LO, HI, HAS_HI, EXT> {
+    const MIN: Option<i64> = Some(LO);
+    const MAX: Option<i64> = if HAS_HI { Some(HI) } else { None };
+    const EXTENSIBLE: bool = EXT;
+}
+
 struct Acc {
     evals: u64,
     schedules: u64,
@@ -196,6 +226,35 @@ macro_rules! number_cases {
     )+};
 }
 
+macro_rules! bounded_number_cases {
+    ($acc:expr, $T:ident, $LO:literal, $HI:literal, $HAS_HI:literal, $EXT:literal) => {{
+        const LO_: i64 = $LO;
+        const HI_: i64 = $HI;
+        for v in int_boundaries($T::MIN as i128, $T::MAX as i128) {
+            // every value the Rust type holds and the root of the constraint permits (an open upper bound permits all
+            // of them; an extensible constraint permits everything, but only root values are taken here)
+            if v < LO_ as i128 || ($HAS_HI && v > HI_ as i128) {
+                continue;
+            }
+            let val = v as $T;
+            let class = format!("number-bounded.{}.{}", stringify!($T), if v > i64::MAX as i128 { "above-i64" } else if v < 0 { "negative" } else { "non-negative" });
+            roundtrip($acc, &class, json!({"kind":"der","op":"number-bounded","type":stringify!($T),"lo":LO_,"hi":HI_,"has_hi":$HAS_HI,"ext":$EXT,"v":v.to_string()}), val.to_string(),
+                &|b| { let mut w = DER::writer(b); w.write_number::<$T, Bounds<$LO, $HI, $HAS_HI, $EXT>>(val).map_err(|e| format!("{e:?}")) },
+                &|s| { let mut r = DER::reader(s); r.read_number::<$T, Bounds<$LO, $HI, $HAS_HI, $EXT>>().map(|x| x.to_string()).map_err(|e| format!("{e:?}")) });
+        }
+    }};
+}
+
+macro_rules! enumx_cases {
+    ($acc:expr, $(($n:literal, $std:literal)),+) => {$(
+        for i in 0..$n as u64 {
+            roundtrip($acc, if i < $std { "enumerated-extensible.root-item" } else { "enumerated-extensible.extension-item" }, json!({"kind":"der","op":"enumerated-extensible","items":$n,"root_items":$std,"index":i}), format!("{:?}", EnX::<$n, $std>(i)),
+                &|b| { let mut w = DER::writer(b); w.write_enumerated(&EnX::<$n, $std>(i)).map_err(|e| format!("{e:?}")) },
+                &|s| { let mut r = DER::reader(s); r.read_enumerated::<EnX<$n, $std>>().map(|x| format!("{x:?}")).map_err(|e| format!("{e:?}")) });
+        }
+    )+};
+}
+
 macro_rules! tag_cases {
     ($acc:expr, $class:literal, $($n:literal),+) => {$(
         {
@@ -321,6 +380,18 @@ fn explore(thorough: bool) -> Acc {
     } else {
         enum_cases!(&mut acc, 32769, 65537);
     }
+    // extensible ENUMERATED types: items behind the extension marker are values like the others
+    enumx_cases!(&mut acc, (1, 1), (2, 1), (3, 1), (4, 2), (5, 5), (130, 127), (130, 128), (260, 2), (300, 255), (300, 256));
+    // INTEGER under the constraints the generator emits: (0..MAX), (1..MAX), (0..255), (-5..5), extensible forms
+    bounded_number_cases!(&mut acc, u64, 0, 0, false, false);
+    bounded_number_cases!(&mut acc, u64, 1, 0, false, false);
+    bounded_number_cases!(&mut acc, u64, 1, 9223372036854775807, true, false);
+    bounded_number_cases!(&mut acc, u8, 0, 255, true, false);
+    bounded_number_cases!(&mut acc, u16, 256, 65535, true, false);
+    bounded_number_cases!(&mut acc, i8, -5, 5, true, false);
+    bounded_number_cases!(&mut acc, i64, -9223372036854775808, 9223372036854775807, true, false);
+    bounded_number_cases!(&mut acc, i64, -5, 5, true, true);
+    bounded_number_cases!(&mut acc, u64, 5, 10, true, true);
     let s1 = { let mut b = Vec::new(); b.write_length(16384).ok(); hex(&b) };
     let s2 = { let mut b = Vec::new(); { let mut w = DER::writer(&mut b); w.write_number::<i16, TagC<0, 2>>(-129).ok(); } hex(&b) };
     let s3 = { let mut b = Vec::new(); b.write_identifier(Tag::Private(30)).ok(); hex(&b) };
@@ -347,7 +418,7 @@ pub fn run(args: &Args) -> ! {
     cov.insert("evaluations".into(), json!(evals));
     cov.insert("distinct_nontrivial".into(), json!(evals));
     cov.insert("schedules".into(), json!(schedules));
-    cov.insert("rule".into(), json!("each evaluation = one distinct (operation, value) written with the real DER writer and read back (exact buffer; buffer followed by 3 sentinel bytes) with the real DER reader under every schedule of the byte source with at most one short read (a read stops at offset p, for every p inside the buffer) and under the schedule that stops after every octet (Read::read may return fewer octets than asked for): same value, same consumption under every schedule; spaces: lengths 0..300 and +-2 (quick) / +-300 (thorough) around every 2^(7k), 2^(8k) and u64::MAX; 4 classes x tag numbers 0..30 (raw identifier, BOOLEAN TLV, INTEGER TLV); all 8 Rust integer types at {min,min+1,+-2^(8k-1)+-1,+-2^(8k)+-1,-300..300,max-1,max}; BOOLEAN value octet 0..255; every index of ENUMERATED types with 1..70000 items; every case is distinct and non-trivial (>= 1 byte written)"));
+    cov.insert("rule".into(), json!("each evaluation = one distinct (operation, value) written with the real DER writer and read back (exact buffer; buffer followed by 3 sentinel bytes) with the real DER reader under every schedule of the byte source with at most one short read (a read stops at offset p, for every p inside the buffer) and under the schedule that stops after every octet (Read::read may return fewer octets than asked for): same value, same consumption under every schedule; spaces: lengths 0..300 and +-2 (quick) / +-300 (thorough) around every 2^(7k), 2^(8k) and u64::MAX; 4 classes x tag numbers 0..30 (raw identifier, BOOLEAN TLV, INTEGER TLV); all 8 Rust integer types at {min,min+1,+-2^(8k-1)+-1,+-2^(8k)+-1,-300..300,max-1,max}; BOOLEAN value octet 0..255; every index of ENUMERATED types with 1..70000 items and of extensible ENUMERATED types (items in front of and behind the marker); INTEGER values of u64 / u8 / u16 / i8 / i64 under the bounded constraints the generator emits ((0..MAX), (1..MAX), (1..i64::MAX), closed ranges, extensible ranges); every case is distinct and non-trivial (>= 1 byte written)"));
     cov.insert("samples".into(), Value::Array(acc.samples));
     report.finish(cov, vec!["oracle is identity + exact consumption, as the statement says; canonical (minimal) DER form is not demanded".into()])
 }
